@@ -61,8 +61,9 @@ var c17formats = []struct {
 // xz tool leg
 
 type c17xzTool struct {
-	path   string
-	broken bool // could not be started; reported once
+	path     string
+	broken   bool // could not be started (reported once) or keeps dying abnormally
+	abnormal int
 }
 
 func c17findXz() string {
@@ -1170,7 +1171,11 @@ func (e *c17env) roundTrip(phase string, idx int64, kind string, x []byte, pfx i
 				e.xz.broken = true
 				rc.Inconclusive("cannot start " + e.xz.path + ": " + stderr)
 			case code < 0:
+				// killed by a signal: no verdict of xz about the file
 				rc.Inconclusive(fmt.Sprintf("xz did not exit normally at %s/%d (%s)", phase, idx, stderr))
+				if e.xz.abnormal++; e.xz.abnormal >= 3 {
+					e.xz.broken = true
+				}
 			case code != 0:
 				extra["xz_stderr"] = stderr
 				viol("xz-reject:"+ff.name, fmt.Sprintf("xz -dc %s exited with status %d: %s", ff.flag, code, strings.TrimSpace(stderr)))
